@@ -90,7 +90,8 @@ def run(chk, repo: Repo):
     chk.rule("C14-R2", "no in-place write reaches an object recorded in the chain history (experimental: the state "
                        "attribute appended by sample/warmup; legacy: arguments of single_update, which are views of the chain) nor, in cuqi/solver, an array handed to a solver", floor=16)
     chk.rule("C14-R3", "chain loops: per iteration exactly one transition, one record of the new state and one callback "
-                       "with that state and its chain index, in this order; the loop is defined once (no concrete sampler replaces sample / warmup)", floor=13)
+                       "with that state and its chain index, in this order; the loop is defined once (no concrete sampler replaces sample / warmup); "
+                       "a sampler constructor that accepts **kwargs forwards them to its base constructor (callback, initial point)", floor=13)
     chk.rule("C14-R4", "state keys assigned from constructor parameters are re-derived by initialize/_initialize or "
                        "saved and restored around the reset in reinitialize", floor=12)
     chk.rule("C14-R5", "get_state/set_state/get_history/set_history/reinitialize/load_checkpoint read resp. write exactly "
